@@ -157,10 +157,14 @@ def build_kwargs(t, vals, menu, form, calls):
         return cache[s]
 
     kw = {}
-    for fn in FNS:
+    for fi, fn in enumerate(FNS):
         if fn in menu:
             items = [src(s) for s in menu[fn]]
-            kw[f"{fn}_over"] = items[0] if len(items) == 1 else items
+            # one column: bare or in a one-element list; several: list or tuple (all accepted argument forms)
+            if len(items) == 1:
+                kw[f"{fn}_over"] = items[0] if (len(vals) + fi) % 2 == 0 else [items[0]]
+            else:
+                kw[f"{fn}_over"] = items if (len(vals) + fi) % 2 == 0 else tuple(items)
     if "apply" in menu:
         def f(values):
             calls.append(list(values))
